@@ -19,6 +19,11 @@ CHECKS = [
         "Trusted: Kani/CBMC/Verus/Z3; DhtKey::distance contract assumed in Verus (proved on the real fn by Kani). Not decided: async reply construction in DhtNetworkManager, protocol caps inside async handle_request.",
         "Verus function contracts + loop invariant on extracted code; Kani proof harnesses with named postconditions inside the real crate",
         "DESIGN.md section 5 C02"),
+    chk("C09",
+        "Verus proves, on the mechanically extracted text of PeerDHTRecord::{validate_inputs, create_signable_message, verify_signature} and SignatureCache::{new, cache_key, verify_cached}, for all records and all cache histories/capacities/eviction choices: construction accepts exactly the documented bounds; the signed message is the canonical encoding of every field; verification succeeds iff the user id is the one derived from the embedded key and the signature verifies over exactly this record; verify_cached returns the same verdict as verify_signature (inductive cache invariant + lemma: equal cache keys imply equal verdicts).",
+        "Under an ideal-crypto dependency contract (ml_dsa_verify deterministic in its three arguments, BLAKE3 injective, postcard injective) -- assumptions, listed in the evidence; error payloads dropped by the extraction; no Kani counterexample producer for this unit (violations are reported with no-failing-input-found).",
+        "Verus function contracts, data-structure invariant and lemmas on mechanically extracted code",
+        "DESIGN.md section 5 C09"),
     chk("C12",
         "Verus proves, on the verbatim text of validate_sequence_internal / apply_sequence_update / next_expected_sequence / PeerCounter::new, for histories of any length: Valid only for last+1 and never for a seen (number,hash); numbers <= last never accepted; gap/replay classification; apply sets last; plus induction lemmas over those contracts (accepted numbers are exactly 1,2,3..., each at most once). Kani proves the callee contract Verus assumes (has_seen_sequence, bounded history), the same postconditions over the full u64 domain (counterexample producer), cleanup keeps the acceptance state, and same-number-twice composition.",
         "Assumed: std::sync::RwLock serialises the validate+apply critical section (sequential semantics per critical section); clock < 2^48 s; fewer than 2^64 accepts per peer. Not decided: concurrent submitters beyond the lock argument, reload from disk, the async wrappers themselves.",
@@ -45,7 +50,6 @@ NOT_APPLICABLE = [
     {"property_id": "C06", "reason": "quantifies over crash points of file-system operations; neither verifier has a file system or crash model and PersistentStateManager cannot be constructed without files"},
     {"property_id": "C07", "reason": "same file I/O plus HMAC/SHA-256/postcard over file contents; the verifiers cannot execute the recovery loop"},
     {"property_id": "C08", "reason": "claim is about real ML-DSA-65 in the release profile; the scheme cannot be executed symbolically, Kani builds the debug shim, and assuming 'verify accepts exactly what sign produced' would assume the property"},
-    {"property_id": "C09", "reason": _PENDING},
     {"property_id": "C10", "reason": "floating-point power iteration over HashMaps with data-dependent iteration count inside async methods on tokio locks; bounds on a float fixed point are outside both tools"},
     {"property_id": "C11", "reason": "quantitative statement about the limit of that iteration over all attack graphs up to 1000 nodes; no inductive invariant within reach"},
     {"property_id": "C15", "reason": _PENDING},
